@@ -19,7 +19,19 @@ import (
 	"strings"
 	"sync"
 	"sync/atomic"
+
+	"github.com/celestiaorg/celestia-node/verifx/vsched"
 )
+
+// nsPoint makes an operation on the file-system NAME SPACE (open, create, link, remove, rename,
+// stat) a scheduling point of the SC layer: readers that open files without holding a store lock
+// (CachedStore) race with the link/unlink steps of put and remove, and those steps are not lock
+// operations. Data reads and writes through an open handle are not points.
+func nsPoint(kind, path string) {
+	if vsched.Active() != nil {
+		vsched.Point("fs."+kind, path, nil, nil)
+	}
+}
 
 // re-exports used by the instrumented packages
 var (
@@ -248,6 +260,7 @@ func wrap(f *os.File, path string, writable bool, err error) (*File, error) {
 }
 
 func OpenFile(name string, flag int, perm FileMode) (*File, error) {
+	nsPoint("open", name)
 	if flag&(O_CREATE|O_TRUNC|O_APPEND) != 0 {
 		if ok, _ := effect("create", name, 0); !ok {
 			return nil, &fs.PathError{Op: "open", Path: name, Err: errFor()}
@@ -258,6 +271,7 @@ func OpenFile(name string, flag int, perm FileMode) (*File, error) {
 }
 
 func Open(name string) (*File, error) {
+	nsPoint("open", name)
 	f, err := os.Open(name)
 	return wrap(f, name, false, err)
 }
@@ -328,6 +342,7 @@ func (f *File) Close() error {
 // ---------------------------------------------------------------- package-level effects
 
 func Link(oldname, newname string) error {
+	nsPoint("link", newname)
 	if ok, _ := effect("link", newname, 0); !ok {
 		return &os.LinkError{Op: "link", Old: oldname, New: newname, Err: errFor()}
 	}
@@ -335,6 +350,7 @@ func Link(oldname, newname string) error {
 }
 
 func Symlink(oldname, newname string) error {
+	nsPoint("symlink", newname)
 	if ok, _ := effect("symlink", newname, 0); !ok {
 		return &os.LinkError{Op: "symlink", Old: oldname, New: newname, Err: errFor()}
 	}
@@ -342,6 +358,7 @@ func Symlink(oldname, newname string) error {
 }
 
 func Remove(name string) error {
+	nsPoint("remove", name)
 	// removing something that does not exist changes nothing and is not a crash point of its own
 	if _, err := os.Lstat(name); err != nil {
 		return os.Remove(name)
@@ -353,6 +370,7 @@ func Remove(name string) error {
 }
 
 func Rename(oldpath, newpath string) error {
+	nsPoint("rename", newpath)
 	if ok, _ := effect("rename", newpath, 0); !ok {
 		return &os.LinkError{Op: "rename", Old: oldpath, New: newpath, Err: errFor()}
 	}
@@ -399,8 +417,15 @@ func RemoveAll(path string) error {
 }
 
 // read-only pass-throughs
-func Stat(name string) (FileInfo, error)      { return os.Stat(name) }
-func Lstat(name string) (FileInfo, error)     { return os.Lstat(name) }
+func Stat(name string) (FileInfo, error) {
+	nsPoint("stat", name)
+	return os.Stat(name)
+}
+
+func Lstat(name string) (FileInfo, error) {
+	nsPoint("stat", name)
+	return os.Lstat(name)
+}
 func ReadFile(name string) ([]byte, error)    { return os.ReadFile(name) }
 func ReadDir(name string) ([]DirEntry, error) { return os.ReadDir(name) }
 func Readlink(name string) (string, error)    { return os.Readlink(name) }
